@@ -128,6 +128,10 @@ def _prefilled_cls():
     import jax.numpy as jnp
     from jumanji.environments import Tetris
 
+    from harness import inject
+
+    inject.need(Tetris, "_calculate_action_mask")
+
     class PrefilledTetris(Tetris):
         def reset(self, key):
             state, ts = super().reset(key)
